@@ -176,12 +176,28 @@ def run(ctx):
         h.script, h.plan = udbl.gen_c10_history(rnd, schema, steps + rnd.randrange(4), pools[schema])
         hists.append(h)
 
+    # round 5: one fixed history over phrases of four syllables that share their first three syllables with a more frequent
+    # phrase (luna_pinyin: shen me shi jian / shen me shi hou), committed whole from the top and from lower positions
+    h = H()
+    h.idx, h.schema = n_hist, "luna_pinyin"
+    pools.setdefault("luna_pinyin", udbl.input_pool(rnd, "luna_pinyin"))
+    L, plan = ["S 1 luna_pinyin"], []
+    for x in ("shenmeshijian", "shenmeshihou", "shenmeshijian"):
+        for sel in (None, 1, 2):
+            a0 = len(L)
+            L += ["L 1 %s" % x, "K 1 %s" % x] + (["P 1 %d" % sel] if sel is not None else []) + ["F 1", "L 1 %s" % x]
+            plan.append(("top" if sel is None else "select", x, a0, len(L) - 1))
+    h.script, h.plan = L, plan
+    hists.append(h)
+
     # baselines: candidate lists with an empty user dictionary
     baseline = {}
 
     def base(schema):
         d = udbl.fresh_user_dir(tpl, os.path.join(root, "base-" + schema))
         extra_inputs = [y for pair in udbl.DELCOMP.get(schema, []) for y in pair]
+        # every proper prefix of a pool input (the stretch a partial selection can cover: step delelem)
+        extra_inputs += sorted({x[:n] for x in pools[schema] for n in range(1, len(x))} - set(pools[schema]))
         rc, out, err = udbl.run_script(exe, tpl, d, ["S 1 %s" % schema] + ["L 1 %s" % x for x in pools[schema] + extra_inputs])
         shutil.rmtree(d, ignore_errors=True)
         g = udbl.group_output(out)
@@ -332,6 +348,19 @@ def run(ctx):
                 texts = [bytes.fromhex(kk).split(b"\t", 1)[1].hex() for kk in counted_keys]
                 pdb_before = sum(1 for c in dmain.op_cmd if c <= a)
                 vis_before = h.extra[main]["V"].get(pdb_before, {})
+                # round 5: "alters no entry of another code" - the entry counted for a whole-input commit is stored under the code
+                # the input spells (script schemas, unabbreviated input: the syllables of the code, joined, are the input)
+                if h.schema != "vtable" and x not in udbl.ABBR_INPUTS.get(h.schema, []) and counted_keys:
+                    st["code_checks"] = st.get("code_checks", 0) + 1
+                    for kk in counted_keys:
+                        code, ktext = bytes.fromhex(kk).split(b"\t", 1)
+                        code = code.decode("utf-8", "replace")
+                        if ktext.hex() != committed:
+                            continue          # an element of a multi-element commit: its own stretch of the input is not known here
+                        if code.replace(" ", "") != x.replace("'", "").replace(" ", ""):
+                            viol.append(("code:%s:counted-under-another-code" % h.schema,
+                                         "the commit of a whole-input candidate is counted under a code the input does not spell (%r for input %r)" % (code, x),
+                                         _replay(h, kind, x, a, b, committed, before, after), True))
                 if nseg == 1 and committed in before:
                     # a candidate covering the whole input was committed
                     st["rank_checks"] += 1
@@ -374,6 +403,32 @@ def run(ctx):
                 if any(vis_after.get(kk) != "1" for kk in counted_keys):
                     viol.append(("model:learned-not-visible", "the model does not hold a counted key as visible after the commit was flushed",
                                  _replay(h, kind, x, a, b, committed, before, after), False))
+            elif kind == "delelem":
+                # the element selected first (Q) of an assembled phrase, deleted from the list of its own stretch of the input
+                vline = next((l for l in out.get(a + 4, []) if l.startswith("V prefix=")), None)
+                if vline is None or "notfound" in vline or " index=" not in vline:
+                    st["delelem_not_listed"] = st.get("delelem_not_listed", 0) + 1
+                    continue
+                f = dict(p.split("=", 1) for p in vline.split()[1:] if "=" in p)
+                prefix, text = f["prefix"], f["text"]
+                aft = [c for c in f.get("after", "").split(",") if c]
+                basel = baseline[h.schema].get(prefix)
+                if basel is None:
+                    st["delelem_no_baseline"] = st.get("delelem_no_baseline", 0) + 1
+                    continue
+                st["delete_element_checks"] = st.get("delete_element_checks", 0) + 1
+                nontrivial.add((h.schema, prefix, text, "delete-element"))
+                if text in aft:
+                    sentence = syllables_of(h.schema, prefix) >= 2 and aft.index(text) == 0
+                    if text not in basel and not sentence:
+                        viol.append(("delete:%s:element-still-offered" % h.schema,
+                                     "an element of an assembled phrase deleted from the list of its own code is still offered although the static dictionary does not yield it",
+                                     _replay(h, kind, prefix, a, b, text, f.get("before", "").split(","), aft), True))
+                    elif text in basel and aft.index(text) < basel.index(text) and not sentence:
+                        viol.append(("delete:%s:element-still-promoted" % h.schema,
+                                     "an element of an assembled phrase deleted from the list of its own code is still ranked by the user dictionary "
+                                     "(index %d, the static dictionary alone lists it at %d)" % (aft.index(text), basel.index(text)),
+                                     _replay(h, kind, prefix, a, b, text, f.get("before", "").split(","), aft), True))
             elif kind == "delcomp":
                 # a learned long phrase deleted from the list of a four-syllable prefix, where it is a word completion
                 yline = next((l for l in out.get(a + 7, []) if l.startswith("Y ")), None)
